@@ -1,3 +1,3 @@
 From Coq Require Import Extraction ExtrOcamlBasic.
 From LT Require Import CodecModel SamplerModel ShuffleModel ShuffleQrModel.
-Extraction "model.ml" create_stack_secret vmix vglue import_vstacksecret random_mod create_card_secret qmask_card.
+Extraction "model.ml" create_stack_secret vmix vglue import_vstacksecret random_mod create_card_secret qmask_card vmix_into.
